@@ -193,6 +193,9 @@ structure Req where
   auth : Bytes
   /-- `base64.StdEncoding.DecodeString(auth[6:])`, `none` when it fails (or `auth` is shorter) -/
   dec : Option Bytes
+  /-- `cfg.validator` (`WithValidator`): `none` = not configured (the user table decides);
+      `some v` = the verdict of the configured validator on the user/password pair the header carries -/
+  validator : Option Bool := none
   deriving Repr
 
 structure Obs where
@@ -218,7 +221,17 @@ def cut (sep : Char) : Bytes → Option (Bytes × Bytes)
 def reject (r : Req) : Obs :=
   { ran := false, status := 401, www := some ("Basic realm=\"".toList ++ r.realm ++ "\"".toList), user := [] }
 
-/-- `basicauth.New(WithUsers(users), WithRealm(realm))` in front of a handler -/
+/-- "Validate credentials": the custom validator if one is configured, else the user table with a
+    constant-time (= plain) comparison of the passwords -/
+def authenticated (r : Req) (u p : Bytes) : Bool :=
+  match r.validator with
+  | some v => v
+  | none =>
+    match r.users.lookup u with
+    | some p' => decide (p = p')
+    | none => false
+
+/-- `basicauth.New(WithUsers(users) | WithValidator(fn), WithRealm(realm))` in front of a handler -/
 def serve (r : Req) : Obs :=
   if r.auth = [] then reject r
   else if ¬ (prefixBasic.isPrefixOf r.auth = true) then reject r
@@ -228,9 +241,7 @@ def serve (r : Req) : Obs :=
       match cut ':' cred with
       | none => reject r
       | some (u, p) =>
-        match r.users.lookup u with
-        | none => reject r
-        | some p' => if p = p' then { ran := true, status := 200, www := none, user := u } else reject r
+        if authenticated r u p then { ran := true, status := 200, www := none, user := u } else reject r
 
 /-- the whole middleware: `cfg.skipPaths[c.Request.URL.Path]` (exact match on the path as the request
     carries it — no cleaning, no decoding beyond what `net/url` did) exempts the request -/
@@ -403,6 +414,9 @@ structure Req where
   opts : List Opt
   /-- `c.Request.Method` -/
   method : Bytes
+  /-- the original method an outer method-override instance has already recorded in the request
+      context ("" = none): `OriginalMethod(c)` reports the innermost recorded value -/
+  ctxOrig : Bytes := []
   /-- the request context carries the (unexported) CSRF-verified mark -/
   csrfVerified : Bool
   /-- `c.Request.ContentLength == 0` -/
@@ -433,7 +447,7 @@ def requested (cfg : Cfg) (r : Req) : Bytes :=
 /-- `methodoverride.New(opts...)` in front of a handler -/
 def serve (r : Req) : Obs :=
   let cfg := config r.opts
-  let pass : Obs := { ran := true, seen := r.method, original := r.method }
+  let pass : Obs := { ran := true, seen := r.method, original := if r.ctxOrig = [] then r.method else r.ctxOrig }
   if ¬ ((cfg.onlyOn.map (app r.upper)).contains (app r.upper r.method) = true) then pass
   else if cfg.requireCSRF ∧ ¬ r.csrfVerified then pass
   else
